@@ -48,6 +48,9 @@ func buildRequestS() *signature.SignRequest {
 	if focusS >= 2 {
 		maxAttrs = 1
 	}
+	if foldModelS {
+		maxAttrs = 1 // the letter-case variant is the first attribute
+	}
 	if focusS == 4 || focusS == 5 { // a plain request without attributes (first step of the C20 sequence; zones)
 		maxAttrs = 0
 	}
@@ -94,6 +97,26 @@ func buildRequestS() *signature.SignRequest {
 var specKeysS = []string{"alg", "cty", "crit", "io.cncf.notary.expiry", "io.cncf.notary.signingTime", "io.cncf.notary.signingScheme", "io.cncf.notary.authenticSigningTime"}
 
 // invalidAttrsS: a key that is not text, a repeated key, a key colliding with a specification-defined header
+// textsValidS: every text of the request that the envelope carries is valid UTF-8 (the codec's domain)
+func textsValidS(req *signature.SignRequest, looked bool) bool {
+	ok := rt.And(stubValidStringS(req.Payload.ContentType), stubValidStringS(req.SigningAgent))
+	for _, a := range attrsS {
+		// looked: only keys / values whose dynamic type the code under test has looked at (a refusal cannot be due to
+		// the others, and deciding their type here would only multiply paths)
+		if !looked || rt.Resolved(a.key) {
+			if t, isText := a.key.(string); isText {
+				ok = rt.And(ok, stubValidStringS(t))
+			}
+		}
+		if !looked || rt.Resolved(a.val) {
+			if t, isText := a.val.(string); isText {
+				ok = rt.And(ok, stubValidStringS(t))
+			}
+		}
+	}
+	return ok
+}
+
 func invalidAttrsS() bool {
 	bad := false
 	for i, a := range attrsS {
@@ -180,7 +203,8 @@ func signAndCheckJWS(e *base.Envelope, req *signature.SignRequest, fresh bool) (
 		// ... and a time that RFC 3339 cannot write (local year outside 0..9999, zone hour above 23) may be refused
 		// (the known condition of F13 - a zone offset with seconds - is listed so that the check says which class it is
 		// should the repair ever be taken out: the shifted instants make the self-check of Sign fail)
-		rt.AssertKnown(rt.Implies(err != nil, rt.Or(inv, foldIdxS >= 0 || encodingRefusedS)), "C08.jws.valid.request.succeeds", "F13", zonesModelS && rt.Or(zoneOffST%60 != 0, zoneOffExp%60 != 0))
+		// ... and a request with a text that is not valid UTF-8 may be refused (the formats cannot carry it)
+		rt.AssertKnown(rt.Implies(err != nil, rt.Or(rt.Or(inv, rt.Not(textsValidS(req, true))), foldIdxS >= 0 || encodingRefusedS)), "C08.jws.valid.request.succeeds", "F13", zonesModelS && rt.Or(zoneOffST%60 != 0, zoneOffExp%60 != 0))
 	}
 	// ---- C15.L3
 	wantTS := rt.And(isX509, req.Timestamper != nil)
@@ -223,6 +247,9 @@ func signAndCheckJWS(e *base.Envelope, req *signature.SignRequest, fresh bool) (
 	// ... and the re-encoded document is the request's JSON value only if no number was damaged on the way
 	rt.AssertKnown(rt.Or(useNumber, numbersExact), "C08.jws.payload.numbers.exact", "F4", rt.Not(numbersExact))
 	rt.Assert(rt.StrEq(c.Payload.ContentType, req.Payload.ContentType), "C08.jws.content.type")
+	// the emitted object is inside the domain on which the JSON round trip is the identity (see ASSUMPTIONS: the bytes
+	// are not re-parsed): a text that is not valid UTF-8 would come back with U+FFFD in it
+	rt.Assert(textsValidS(req, false), "C08.jws.emitted.texts.are.valid.utf8")
 	rt.Assert(rt.StrEq(string(c.SignerInfo.SignedAttributes.SigningScheme), string(req.SigningScheme)), "C08.jws.scheme")
 	if zonesModelS {
 		// known finding F13: a zone offset with a seconds part moves the instant by that many seconds
